@@ -38,7 +38,11 @@ func TestVerifC08(t *testing.T) {
 			for step := 0; !cur.Done() && !hung; step++ {
 				switch cur.Next() {
 				case 0:
+					before := atomic.LoadUint32(&sl.state)
 					got := sl.TryToAcquire()
+					if !got && atomic.LoadUint32(&sl.state) != before {
+						out.Mon(c.id, "c08:failed-try-has-side-effect", "op %d: TryToAcquire returned false but changed the lock word %d -> %d", step, before, atomic.LoadUint32(&sl.state))
+					}
 					if got {
 						obs = append(obs, 1)
 					} else {
@@ -76,8 +80,15 @@ func TestVerifC08(t *testing.T) {
 			out.Obs(c.id, obs)
 		case 1:
 			tasks, iters, seed := int(cur.Next()), int(cur.Next()), int64(cur.Next())
+			// the lock sits between non-zero words: an implementation must only look at its own 4 bytes
+			var box struct {
+				before uint32
+				sl     Spinlock
+				after  uint32
+			}
+			box.before, box.after = 0xffffffff, 0xffffffff
+			sl := &box.sl
 			var (
-				sl        Spinlock
 				holders   int32
 				plain     int64 // only touched inside the critical section, non-atomically
 				sections  int64
